@@ -171,6 +171,18 @@ func c05Build(c C05Case) (parts []part, cfg h.Config, be *h.Backend, want []stri
 		default:
 			want = append(want, "550", "250") // every other BDAT command gets exactly one reply
 		}
+	case "padded-size":
+		// a chunk size written with leading zeros is a decimal number like any other
+		cmd("MAIL FROM:<ok@a.example>")
+		cmd("RCPT TO:<ok@b.example>")
+		want = append(want, "250", "250")
+		g++
+		cmd(fmt.Sprintf("BDAT %s", c.BadCmd)) // BadCmd carries the size as written, e.g. "010"
+		pay(c.Msg[:len(c.Msg)/2])
+		cmd(fmt.Sprintf("BDAT 00%d LAST", len(c.Msg)-len(c.Msg)/2))
+		pay(c.Msg[len(c.Msg)/2:])
+		cmd("NOOP")
+		want = append(want, "250", "250", "250")
 	case "odd-separator":
 		// white space other than one SP between the arguments: the server may take it or refuse it, but it knows the
 		// size and must not execute the chunk either way
@@ -323,6 +335,13 @@ func evalC05(c C05Case) *h.Finding {
 		}
 		return h.F("c05-replies", "%s: replies %s, want %v", desc, o.Codes(), want)
 	}
+	if c.State == "padded-size" {
+		for _, e := range o.Trace {
+			if (e.Kind == "Data" || e.Kind == "LMTPData") && (!bytes.Equal(e.Body, c.Msg) || e.ReadErr != "EOF") {
+				return h.F("c05-body-differs", "%s: backend read %d octets (%s), want the %d octets of the two chunks", desc, len(e.Body), e.ReadErr, len(c.Msg))
+			}
+		}
+	}
 	if c.State == "ok" {
 		var data []h.Event
 		marks := 0
@@ -349,6 +368,8 @@ func evalC05(c C05Case) *h.Finding {
 		if marks != 1 {
 			return h.F("c05-marker", "%s: marker command executed %d times", desc, marks)
 		}
+	} else if c.State == "padded-size" {
+		// judged above
 	} else if c.State == "odd-separator" {
 		// taken (250, delivered as it is) or refused (5xx, skipped): the two must agree
 		delivered := false
@@ -390,7 +411,7 @@ func C05(tier string) int {
 		bytes.Repeat([]byte("a"), lim-1), bytes.Repeat([]byte("b"), lim+1), bytes.Repeat([]byte("c"), 3*lim),
 		append(bytes.Repeat([]byte{0xfe}, lim+1), '\n'), append([]byte("\n"), bytes.Repeat([]byte("d"), lim+1)...),
 	}
-	run.Rule = fmt.Sprintf("messages = all strings of <=%d octets over {CR,LF,'.',NUL,0xFF,'a'} plus %d fixed payloads (CRLF.CRLF, command look-alikes, LF-free runs of line-limit-1, +1, x3 with the line limit set to %d) x every division into <=%d chunks (empty chunks, LAST on empty or non-empty) x segmentation {command/payload in separate segments, pipelined group per segment, everything in one segment, one octet per segment} x {SMTP, LMTP, LMTP per-recipient}; refused BDAT (no MAIL, all RCPT rejected, bad LAST token, over the size limit on the first and on a later chunk) (each followed by a further chunk that would fit: refused as well) and a backend that fails without reading the chunk (two recipients: one reply per BDAT, one per recipient only for LMTP LAST) x payloads (all strings <=%d + fixed) x segmentations; malformed BDAT lines; BDAT lines with TAB / several spaces between the arguments and a bait chunk (taken or refused, never executed). Distinct by construction; non-trivial = payload contains CR, LF, '.', NUL, 0xFF or is longer than the line limit, or the command is refused. every accepted conversation continues with a second two-chunk message (in the 'pipelined group' segmentation under a size limit that each message fits but not both together). Oracle: one Data call per message whose reader yields the concatenation then EOF; exactly the expected reply per command; markers executed once; no payload octet executed.", maxLen, len(fixed), lim, maxParts, refLen)
+	run.Rule = fmt.Sprintf("messages = all strings of <=%d octets over {CR,LF,'.',NUL,0xFF,'a'} plus %d fixed payloads (CRLF.CRLF, command look-alikes, LF-free runs of line-limit-1, +1, x3 with the line limit set to %d) x every division into <=%d chunks (empty chunks, LAST on empty or non-empty) x segmentation {command/payload in separate segments, pipelined group per segment, everything in one segment, one octet per segment} x {SMTP, LMTP, LMTP per-recipient}; refused BDAT (no MAIL, all RCPT rejected, bad LAST token, over the size limit on the first and on a later chunk) (each followed by a further chunk that would fit: refused as well) and a backend that fails without reading the chunk (two recipients: one reply per BDAT, one per recipient only for LMTP LAST) x payloads (all strings <=%d + fixed) x segmentations; malformed BDAT lines; chunk sizes with leading zeros; chunks of 5000..150000 octets (beyond every internal buffer); BDAT lines with TAB / several spaces between the arguments and a bait chunk (taken or refused, never executed). Distinct by construction; non-trivial = payload contains CR, LF, '.', NUL, 0xFF or is longer than the line limit, or the command is refused. every accepted conversation continues with a second two-chunk message (in the 'pipelined group' segmentation under a size limit that each message fits but not both together). Oracle: one Data call per message whose reader yields the concatenation then EOF; exactly the expected reply per command; markers executed once; no payload octet executed.", maxLen, len(fixed), lim, maxParts, refLen)
 	run.Assumptions = []string{"payload octet classes {CR, LF, '.', NUL, 0xFF, other}", "known finding linelimit-counts-bdat-payload (DESIGN.md D6) is matched by signature AND by an independent simulation of the limiter's sub-space; any other mismatch is a violation"}
 	var cases []C05Case
 	modes := []string{"smtp", "lmtp", "lmtp-rcpt"}
@@ -452,6 +473,24 @@ func C05(tier string) int {
 					}
 					cases = append(cases, C05Case{Mode: mode, State: st, Msg: p, Seg: seg, LineLimit: ll})
 				}
+			}
+		}
+	}
+	// sizes with leading zeros (read as octal or refused by a parser with base 0)
+	for _, n := range []int{8, 9, 10, 18, 19, 64, 100} {
+		for _, mode := range modes {
+			for _, seg := range []string{"sep", "one"} {
+				msg := bytes.Repeat([]byte("z\n"), n) // 2n octets: first chunk n, second chunk n
+				cases = append(cases, C05Case{Mode: mode, State: "padded-size", Msg: msg, BadCmd: fmt.Sprintf("0%d", n), Seg: seg}, C05Case{Mode: mode, State: "padded-size", Msg: msg, BadCmd: fmt.Sprintf("000%d", n), Seg: seg})
+			}
+		}
+	}
+	// chunks far beyond every internal buffer (4096, 32 KiB, 64 KiB), in one chunk and in three
+	for _, n := range []int{5000, 33000, 70000, 150000} {
+		big := bytes.Repeat([]byte("0123456789abcdef0123456789abcde\n"), n/32+1)[:n]
+		for _, mode := range modes {
+			for _, seg := range []string{"sep", "one"} {
+				cases = append(cases, C05Case{Mode: mode, State: "ok", Msg: big, Chunks: []int{n}, Seg: seg}, C05Case{Mode: mode, State: "ok", Msg: big, Chunks: []int{n / 3, n / 3, n - 2*(n/3)}, Seg: seg})
 			}
 		}
 	}
